@@ -354,7 +354,7 @@ def execute(cases, tag, exe=None, timeout=900, model_cases=None):
                 for c in model_cases:
                     f.write(case_text(c))
         t0 = time.time()
-        rc2, out2, _ = run([exe, mcf, mout], timeout=timeout)
+        rc2, out2, _ = run(["bash", "-c", "ulimit -s unlimited 2>/dev/null || ulimit -s 1000000; export OCAMLRUNPARAM=s=64M,o=400; exec \"$0\" \"$1\" \"$2\"", exe, mcf, mout], timeout=timeout)
         tm = time.time() - t0
         if rc2 != 0:
             note += " model driver rc=%d: %s" % (rc2, out2[-500:])
